@@ -63,10 +63,17 @@ static int xt_getcap(TickitTerm *tt, const char *name)
   return v;
 }
 
+/* sets the attributes of the compact syntax on an existing pen object */
+static void xt_apply_pen(TickitPen *pen, const char *s);
 static TickitPen *xt_parse_pen(const char *s)
 {
   TickitPen *pen = tickit_pen_new();
-  if(strcmp(s, "-") == 0) return pen;
+  xt_apply_pen(pen, s);
+  return pen;
+}
+static void xt_apply_pen(TickitPen *pen, const char *s)
+{
+  if(strcmp(s, "-") == 0) return;
   char *copy = strdup(s), *save = NULL;
   for(char *item = strtok_r(copy, ",", &save); item; item = strtok_r(NULL, ",", &save)) {
     char *eq = strchr(item, '=');
@@ -94,7 +101,19 @@ static TickitPen *xt_parse_pen(const char *s)
     }
   }
   free(copy);
-  return pen;
+}
+/* tickit_pen_clear_attr for every attribute named in "u=0,af=0" (the values are ignored) */
+static void xt_clear_attrs(TickitPen *pen, const char *s)
+{
+  if(strcmp(s, "-") == 0) return;
+  char *copy = strdup(s), *save = NULL;
+  for(char *item = strtok_r(copy, ",", &save); item; item = strtok_r(NULL, ",", &save)) {
+    char *eq = strchr(item, '=');
+    if(eq) *eq = 0;
+    TickitPenAttr attr = tickit_penattr_lookup(item);
+    if((int)attr >= 1) tickit_pen_clear_attr(pen, attr);
+  }
+  free(copy);
 }
 
 /* canonical text of a pen, attributes in enum order */
